@@ -18,15 +18,8 @@ def run(ctx):
 
 
 def prove(ctx):
-    try:
-        from pyvc.run import prove_functions
-        from pyvc.spec import REG
-        import specs.sat  # noqa
-        keys = [k for k, s in REG.fns.items() if "C02" in s.prop]
-        if keys:
-            ctx.add_proof_report(prove_functions(["specs.sat"], keys, tier=ctx.tier))
-    except ImportError:
-        pass
+    from vf.prove import prove as _p
+    _p(ctx, ["specs.sat"], "C02", lemma_groups=())
 
 
 def replay(rec):
